@@ -141,15 +141,21 @@ Judge(a) ==
                                      \/ t.astParent = t.id
                                      \/ ~Climb(t.astParent, n)}}
 
-      (* ScopeTree: nestedIn is acyclic; a scope body starts before it ends (both ends present or both absent). *)
-      RECURSIVE Up(_, _)
+      (* ScopeTree: nestedIn is acyclic; a scope body starts before it ends (both ends present or both absent); *)
+      (* and the scope attribute of the tokens agrees with the body ranges: a token strictly between bodyStart   *)
+      (* and bodyEnd of a scope belongs to that scope or to a scope nested (transitively) in it.                 *)
+      RECURSIVE Up(_, _), Inside(_, _, _)
       Up(id, fuel) == IF Null(id) \/ id \notin S THEN TRUE ELSE IF fuel = 0 THEN FALSE ELSE Up(a.scopes[spos[id]].nestedIn, fuel - 1)
+      Inside(id, sc, fuel) == IF id = sc THEN TRUE ELSE IF Null(id) \/ id \notin S \/ fuel = 0 THEN FALSE
+                              ELSE Inside(a.scopes[spos[id]].nestedIn, sc, fuel - 1)
+      HasBody(u) == ~Null(u.bodyStart) /\ ~Null(u.bodyEnd) /\ u.bodyStart \in T /\ u.bodyEnd \in T
       ScopeTree ==
         {"scope " \o s.id \o " " \o s.type :
             s \in {u \in Range(a.scopes) :
                      \/ ~Up(u.nestedIn, Len(a.scopes))
                      \/ Null(u.bodyStart) # Null(u.bodyEnd)
-                     \/ (~Null(u.bodyStart) /\ u.bodyStart \in T /\ u.bodyEnd \in T /\ ~(pos[u.bodyStart] < pos[u.bodyEnd]))}}
+                     \/ (HasBody(u) /\ ~(pos[u.bodyStart] < pos[u.bodyEnd]))
+                     \/ (HasBody(u) /\ \E i \in (pos[u.bodyStart] + 1)..(pos[u.bodyEnd] - 1) : ~Inside(tok[i].scope, u.id, Len(a.scopes)))}}
 
       (* VarDeclUse: a token that refers to a variable carries a variable id, and one id never names two         *)
       (* variables.  All tokens of one variable carry the id of its declaration (the id of the name token),      *)
